@@ -1,4 +1,5 @@
 """C18 - registration is validated and makes items reachable where declared."""
+import re
 from .. import mir, hir
 from ..callgraph import CallGraph
 from ..facts import relfile
@@ -816,6 +817,69 @@ def rule_i14(F):
     return r
 
 
+def rule_i15(F):
+    """The registration state of a runtime is one thing: the type checker's declarations and the runtime's own tables (`types`,
+    `functions`, `constants`, `context`) describe the same items, and every pass of `Rt::add` relies on that (a type found in
+    `types` has a scope in the type checker: `get_scope_of(..).unwrap()`).  So the state is only ever put back as a whole: a wrapper
+    that restores a saved copy of SOME fields of `Rt` after a refused library (the type checker, but not the tables) leaves a type
+    registered without a declaration, and the next `add` that mentions it panics.  Decided on the public `Runtime` methods: the
+    set of `Rt` fields that are overwritten from outside `Rt`'s own methods is empty or all of them."""
+    r = RuleResult("C18.I15", "the registration state (type checker + type/function/constant tables) is never restored partially", floor=1)
+    adt = F.adt("runtime::Rt")
+    if adt is None:
+        r.missing("runtime::Rt")
+        return r
+    all_fields = [f["name"] for f in adt["variants"][0]["fields"]]
+    owners = [x for x in F.all_bodies() if x.mir and x.path.split("::{closure")[0].startswith("runtime::Runtime::<")]
+    if not owners:
+        r.missing("methods of runtime::Runtime")
+        return r
+    by_fn = {}
+    for x in owners:
+        locs = x.mir["locals"]
+        for blk in x.blocks:
+            for st in blk["stmts"]:
+                if st["k"] != "assign" or len(st["p"]) < 2:
+                    continue
+                names = [e[2] for e in st["p"][1:] if isinstance(e, list) and e[0] == "f"]
+                # a store to `<..>.rt.<field>` (or to a field of a captured `&mut Rt`)
+                for i, nm in enumerate(names):
+                    prev = names[i - 1] if i else None
+                    base_ty = str(locs[st["p"][0]].get("ty") or "")
+                    if nm in all_fields and (prev == "rt" or ("runtime::Rt" in base_ty and i == 0)) and i == len(names) - 1:
+                        by_fn.setdefault(x.path.split("::{closure")[0], set()).add(nm)
+    # closures capture the single field they write (`&mut self.rt.type_checker`): the captured variable is named after the path
+    for x in owners:
+        if "{closure" not in x.path:
+            continue
+        xdefs = mir.Defs(x)
+        for blk in x.blocks:
+            if blk.get("cleanup"):
+                continue
+            for st in blk["stmts"]:
+                if st["k"] != "assign" or st["p"][1:] != ["*"]:
+                    continue
+                for d in xdefs.whole_defs(st["p"][0]):
+                    rv = d[3].get("rv") if d[2] == "assign" else None
+                    o = rv.get("o") if rv and rv.get("k") == "use" else None
+                    if mir.is_place_op(o) and o[1][0] == 1:
+                        for e in o[1][1:]:
+                            m_ = re.match(r"^_ref__.*?rt__(\w+)$", str(e[2])) if isinstance(e, list) and e[0] == "f" else None
+                            if m_ and m_.group(1) in all_fields:
+                                by_fn.setdefault(x.path.split("::{closure")[0], set()).add(m_.group(1))
+    for fn in sorted({x.path.split("::{closure")[0] for x in owners}):
+        stored = by_fn.get(fn, set())
+        if hir.last(fn) in ("add", "from_lib", "new", "with_context_type", "register_context_type") or stored:
+            r.inst("%s" % fn, {"fn": fn, "fields_of_Rt_overwritten": sorted(stored)})
+        if stored and stored != set(all_fields):
+            b = F.body(fn)
+            r.bad(fn, "partial restore of the registration state (%s)" % ", ".join(sorted(stored)), relfile(b.file) if b else "-", b.line if b else 0,
+                  "%s overwrites %s of the runtime's state but not %s: after a refused library the type checker and the runtime's tables disagree (a type is registered without a "
+                  "declaration), and a later `add` that mentions it panics on `get_scope_of(..).unwrap()` or compiles scripts into an internal compiler error"
+                  % (hir.last(fn), sorted(stored), sorted(set(all_fields) - stored)))
+    return r
+
+
 def rules(ctx):
     F = ctx["F"]
-    return [rule_i1(F), rule_i2(F), rule_i3(F), rule_i4(F), rule_i5(F), rule_i6(F), rule_i7(F), rule_i8(F), rule_i9(F), rule_i10(F), rule_i11(F), rule_i12(F), rule_i13(F), rule_i14(F)]
+    return [rule_i1(F), rule_i2(F), rule_i3(F), rule_i4(F), rule_i5(F), rule_i6(F), rule_i7(F), rule_i8(F), rule_i9(F), rule_i10(F), rule_i11(F), rule_i12(F), rule_i13(F), rule_i14(F), rule_i15(F)]
